@@ -20,6 +20,7 @@ LIST_AX = [
     ForAll([l, i], Implies(And(0 <= i, i < ln(l)), mem(l, at(l, i))), patterns=[at(l, i)]),
     ForAll([l, x], Implies(mem(l, x), And(0 <= idx(l, x), idx(l, x) < ln(l), at(l, idx(l, x)) == x)), patterns=[mem(l, x)]),
     ForAll([l, i], Implies(And(nodup(l), 0 <= i, i < ln(l)), idx(l, at(l, i)) == i), patterns=[MultiPattern(nodup(l), at(l, i))]),
+    ForAll([l, i], Implies(And(0 <= i, i < ln(l)), idx(l, at(l, i)) <= i), patterns=[at(l, i)]),                                              # list.index finds the FIRST occurrence
     ForAll([l, x, y], Implies(nodup(l), mem(rem(l, x), y) == And(mem(l, y), y != x)), patterns=[mem(rem(l, x), y)]),
     ForAll([l, x], Implies(And(nodup(l), mem(l, x)), And(nodup(rem(l, x)), ln(rem(l, x)) == ln(l) - 1)), patterns=[rem(l, x)]),
     ForAll([l, x, y], Implies(And(nodup(l), mem(l, x), mem(l, y), y != x), idx(rem(l, x), y) == If(idx(l, y) > idx(l, x), idx(l, y) - 1, idx(l, y))), patterns=[idx(rem(l, x), y)]),
@@ -94,6 +95,8 @@ ROOT_AX = [
 # dependency relation as ghost E : Task -> (Task -> Bool)  (E[x][a]: a is a predecessor of x)
 SET = ArraySort(T.z, BoolSort()); REL = ArraySort(T.z, SET)
 TCp = Function('TCp', REL, T.z, T.z, BoolSort()); AcycP = Function('AcycP', REL, BoolSort()); wit = Function('wit', REL, T.z, SET, T.z)
+hint_ = Function('hint', T.z, BoolSort())          # hint_(t) is true (axiom below); writing hint_(term) in a goal only puts `term` in front of the solver
+lastp = Function('lastp', REL, T.z, T.z, T.z)          # a direct predecessor of x through which a reaches x (skolem of G4)
 E_ = Const('E_', REL); V_ = Const('V_', SET)
 DEP_AX = [   # G1 (Lean: PjGraph.G1) in skolemised form; TCp(E, a, x): a is a transitive predecessor of x
     ForAll([E_, s_, V_], Implies(And(AcycP(E_), Not(AcycP(Store(E_, s_, V_)))),
@@ -102,6 +105,8 @@ DEP_AX = [   # G1 (Lean: PjGraph.G1) in skolemised form; TCp(E, a, x): a is a tr
     ForAll([E_, a, b, c], Implies(And(TCp(E_, a, b), TCp(E_, b, c)), TCp(E_, a, c)), patterns=[MultiPattern(TCp(E_, a, b), TCp(E_, b, c))]),       # transitivity (TransGen.trans)
     ForAll([E_, x], Implies(AcycP(E_), Not(TCp(E_, x, x))), patterns=[TCp(E_, x, x)]),                                                           # definition of Acyclic
     ForAll([E_, a, x], Implies(And(AcycP(E_), x != null, E_[x][a]), Not(TCp(E_, x, a))), patterns=[TCp(E_, x, a)]),                                # corollary of the three above (a direct link excludes the reverse path)
+    ForAll([E_, a, x], Implies(TCp(E_, a, x), And(x != null, E_[x][lastp(E_, a, x)], Or(a == lastp(E_, a, x), TCp(E_, a, lastp(E_, a, x))))), patterns=[lastp(E_, a, x)]),   # G4: last step of a path (TransGen.tail), skolemised; fires only where a proof names the witness (hint_), else it would unfold paths for ever
+    ForAll([x], hint_(x), patterns=[hint_(x)]),
 ]
 
 TASK_CLASSES = {'Task': {'_Task__parent': T, '_Task__children': LR, '_Task__wbs': W, '_Task__id': INT, '_Task__predecessors': LR, '_Task__successors': LR},
